@@ -321,6 +321,13 @@ def rule_sp_route(ctx: RuleContext, p: Program, rid: str) -> None:
     t2k = p.func('models.internal.spacing_accessors', '_text_to_tokens')
     t2t = p.func('models.internal.spacing_accessors', '_tokens_to_text')
 
+    by_rule: dict = {}
+    for c_ in p.registered('token_model'):
+        r_ = p.class_const(c_, 'RULE')
+        if isinstance(r_, ast.Constant):
+            by_rule[r_.value] = c_.name
+    token_classes = set(by_rule.values())
+
     class Interp(possem.PosInterp):
         tag = 'SP-ROUTE'
 
@@ -336,8 +343,13 @@ def rule_sp_route(ctx: RuleContext, p: Program, rid: str) -> None:
             if isinstance(e, ast.Call) and isinstance(e.func, ast.Attribute) and e.func.attr == 'from_raw_text' \
                     and not (isinstance(e.func.value, ast.Name) and e.func.value.id not in env and e.func.value.id not in ('Whitespace', 'Newline')):
                 kv = self.expr(e.func.value, env)          # the class reached through a variable: `for token_cls, text in ((Whitespace, ws), (Newline, nl))`
-                if isinstance(kv, possem.ClassRef) and kv.name in ('Whitespace', 'Newline'):
+                if isinstance(kv, possem.ClassRef) and (kv.name in ('Whitespace', 'Newline') or kv.name in token_classes):
                     return possem.Obj(kv.name, {'raw_text': self.expr(e.args[0], env)}, kv.name)
+            if isinstance(e, ast.Subscript) and norm(e.value).rsplit('.', 1)[-1] == 'TOKEN_MODELS' and not (isinstance(e.value, ast.Name) and e.value.id in env):
+                k_ = self.expr(e.slice, env)              # the registry: the token class registered under that terminal name
+                if k_ not in by_rule:
+                    raise possem.Raised(f'KeyError: {k_!r}')
+                return possem.ClassRef(by_rule[k_])
             if isinstance(e, ast.Name) and e.id in ('Whitespace', 'Newline') and e.id not in env:
                 return possem.ClassRef(e.id)
             if isinstance(e, ast.Call) and isinstance(e.func, ast.Attribute) and e.func.attr == 'join' and isinstance(e.func.value, ast.Constant):
@@ -421,8 +433,13 @@ def rule_sp_route(ctx: RuleContext, p: Program, rid: str) -> None:
         st_ = p.method(mx, f'spacing_{side}', setter=True, inherited=False)
         # whatever the run currently holds (here: blanks, a CR LF line break, a tab), the assigned text alone decides the new tokens
         ok, why = True, ''
-        for text, want_shape in ((' \n', [('Whitespace', ' '), ('Newline', '\n')]), (' ', [('Whitespace', ' ')]), ('\t', [('Whitespace', '\t')]), ('', []),
-                                 ('\n\n', [('Newline', '\n'), ('Newline', '\n')])):
+        for text, want_shape, doc_nl in [(t_, w_, nl_) for nl_ in ('\n', '\r\n') for t_, w_ in (
+                (' \n', [('Whitespace', ' '), ('Newline', '\n')]), (' ', [('Whitespace', ' ')]), ('\t', [('Whitespace', '\t')]), ('', []),
+                ('\n\n', [('Newline', '\n'), ('Newline', '\n')]), ('\r\n\n', [('Newline', '\r\n'), ('Newline', '\n')]))]:
+            # the document the model sits in: its other line breaks are LF in one run, CR LF in the other -- the assigned text alone decides
+            me.f['token_store'] = [possem.Obj('Other', {'raw_text': 'x'}, 'x'), possem.Obj('Newline', {'raw_text': doc_nl}, 'nl'), *toks,
+                                   possem.Obj('Other', {'raw_text': 'y'}, 'y'), possem.Obj('Newline', {'raw_text': doc_nl}, 'nl2')]
+            me.f['first_token'] = me.f['last_token'] = me.f['token_store'][5]
             it = Interp(me)
             try:
                 it.call_function(st_, [me, text], {})
@@ -430,7 +447,7 @@ def rule_sp_route(ctx: RuleContext, p: Program, rid: str) -> None:
                 shape = [(x.cls, x.f['raw_text']) for x in (val or []) if isinstance(x, possem.Obj)]
                 if not (set(it.assigned) == {f'raw_spacing_{side}'} and shape == want_shape) and ok:
                     ok = False
-                    why = (f'spacing_{side} = {text!r} while the run holds blanks and a line break: assigns '
+                    why = (f'spacing_{side} = {text!r} while the run holds blanks and a line break and the document breaks its lines with {doc_nl!r}: assigns '
                            f'{dict((k_, [(x.cls, x.f["raw_text"]) for x in v_]) for k_, v_ in it.assigned.items())}; expected raw_spacing_{side} = {want_shape} '
                            f'-- the tokens of the assigned text and nothing else (tokens of the old run carried over stay in the document: the '
                            f'length does not change by the difference and the value does not read back)')
